@@ -151,6 +151,21 @@ fn explore(lits: &[String], l: &mut Local) -> Result<(), String> {
             l.violation(format!("Dec! | {} | compiles although from_str fails", cls), || (format!("Dec!({}) compiles; Decimal::from_str({:?}) = {:?}", lit, lit, Decimal::from_str(lit).err()), json!({"lit": lit})));
         }
     }
+    // (1b) the same reject file in the RELEASE profile: the proc macro is then compiled without overflow checks and
+    // debug assertions, so a scaling step that relies on them to reject a literal lets it through (seeded changes
+    // C18-h1, C20-h1: Dec!(0e39) / Dec!(2e38) compile to a wrapped constant in release builds only)
+    let (_okr, errs_r, stderr_r) = cargo(&["check", "--release", "--bin", "reject"]);
+    let rel_errs = errs_r.get("src/bin/reject.rs").cloned().unwrap_or_default();
+    if errs_r.keys().any(|k| k != "src/bin/reject.rs") && rel_errs.is_empty() && !reject.is_empty() {
+        return Err(format!("cargo check --release reported errors outside the generated reject file: {:?}\n{}", errs_r.keys().collect::<Vec<_>>(), &stderr_r[..stderr_r.len().min(2000)]));
+    }
+    for (k, lit) in reject.iter().enumerate() {
+        l.evals += 1;
+        if !rel_errs.contains(&(k + 3)) {
+            let cls = class_name(lit_class(lit));
+            l.violation(format!("Dec! (release profile) | {} | compiles although from_str fails", cls), || (format!("Dec!({}) compiles with --release; Decimal::from_str({:?}) = {:?}", lit, lit, Decimal::from_str(lit).err()), json!({"lit": lit})));
+        }
+    }
     // (2) accept file: must compile; failing lines are violations and are removed for a second build
     let (ok, errs, stderr) = cargo(&["build", "--bin", "accept"]);
     let mut bad_lines: BTreeSet<usize> = errs.get("src/bin/accept.rs").cloned().unwrap_or_default();
